@@ -15,12 +15,26 @@ static void h_close(handle_t *h){ if(h->open){ ov_clear(&h->vf); h->open=0; } }
 /* ------------------------------------------------------------------ C09 */
 /* linear read through the 16-bit integer interface against a float reference decode: per link exactly nout frames of that link's own frame size, each value the rounded float.
    Returns 1 if fine.  keys are reported under `prop`. */
+/* tap: a filter that changes nothing and records what it was shown.  Every frame a filtered read delivers must have been shown to the filter exactly once, in that call */
+static __thread struct { long n; int ch; float first[8]; float last[8]; double sum; long calls; } tap;
+static void tap_filter(float **pcm,long channels,long samples,void *arg){ (void)arg; tap.calls++; tap.n+=samples; tap.ch=(int)channels;
+  for(int c=0;c<channels&&c<8;c++){ if(samples>0){ tap.first[c]=pcm[c][0]; tap.last[c]=pcm[c][samples-1]; } }
+  for(int c=0;c<channels;c++) for(long i=0;i<samples;i++) tap.sum+=pcm[c][i]; }
 static int int_linear(const unsigned char *d,size_t n,const refdec_t *whole,int seekmode,int rs,int cap,uint64_t seed,long id,const char *prop,const char *desc){
   int ok=1;
   handle_t hi; memset(&hi,0,sizeof hi); static __thread unsigned char ib[4096]; long fr[VH_MAXLINKS]; memset(fr,0,sizeof fr); int bsi=0; long g; int len=(int)sizeof ib-(int)(id%7);
   memsrc_init(&hi.ms,d,n,seekmode); if(rs>=0) memsrc_schedule(&hi.ms,rs,cap,seed);
   if(ov_open_callbacks(&hi.ms,&hi.vf,NULL,0,memsrc_cb(&hi.ms))==0){ hi.open=1;
-    while((g=ov_read(&hi.vf,(char*)ib,len,0,2,1,&bsi))!=0){
+    rng_t lr; rng_seed(&lr,seed,0x1f,(uint64_t)id); int vary= !strcmp(prop,"C10"); int usetap= vary && (id%3!=0);
+    while(1){
+      if(vary){ int k=(int)rng_below(&lr,10); len= k<2?(int)rng_range(&lr,1,64): k<5?(int)rng_range(&lr,64,1024): k<9?(int)rng_range(&lr,1024,4096):4096; }
+      memset(&tap,0,sizeof tap);
+      g= usetap? ov_read_filter(&hi.vf,(char*)ib,len,0,2,1,&bsi,tap_filter,NULL) : ov_read(&hi.vf,(char*)ib,len,0,2,1,&bsi);
+      if(g==0) break;
+      if(g==OV_EINVAL && vary && bsi>=0 && bsi<whole->nlinks){ /* a request shorter than one frame of the link being read is refused and changes nothing: ask again with room for one frame */
+        int fl=-1; for(int i=0;i<whole->nlinks;i++) if(fr[i]<whole->l[i].nout){ fl=i; break; }
+        if(fl>=0 && len<2*whole->l[fl].ch){ res_count("short_requests_refused",1); len=2*whole->l[fl].ch; memset(&tap,0,sizeof tap);
+          g= usetap? ov_read_filter(&hi.vf,(char*)ib,len,0,2,1,&bsi,tap_filter,NULL) : ov_read(&hi.vf,(char*)ib,len,0,2,1,&bsi); if(g==0) break; } }
       if(g<0){ res_viol(prop,"int-linear-read-broken","ov_read returned %ld: %s",g,desc); ok=0; break; }
       if(bsi<0||bsi>=whole->nlinks){ res_viol(prop,"int-linear-read-broken","bitstream %d of %d",bsi,whole->nlinks); ok=0; break; }
       const reflink_t *W=&whole->l[bsi]; int frame=2*W->ch;
@@ -29,6 +43,11 @@ static int int_linear(const unsigned char *d,size_t n,const refdec_t *whole,int 
       for(long j=0;j<nf && ok;j++) for(int c=0;c<W->ch;c++){ long v=(long)ib[(j*W->ch+c)*2]|((long)ib[(j*W->ch+c)*2+1]<<8); if(v>=32768) v-=65536;
         float x=W->pcm[c][fr[bsi]+j]; if(x!=x) continue; double e=(double)x*32768.0; if(e>32767) e=32767; if(e<-32768) e=-32768;
         if(fabs((double)v-e)>0.5001){ res_viol(prop,"int-read-audio-differs","link %d ch %d sample %ld: ov_read %ld, float decode %.9g: %s",bsi,c,fr[bsi]+j,v,(double)x,desc); ok=0; break; } }
+      if(usetap && ok){
+        if(tap.n!=nf || tap.calls!=1 || tap.ch!=W->ch){ res_viol(prop,"filter-shown-other-than-delivered","link %d: %ld frames delivered, filter was called %ld times and shown %ld frames of %d channels (request %d bytes): %s",bsi,nf,tap.calls,tap.n,tap.ch,len,desc); ok=0; break; }
+        for(int c=0;c<W->ch&&c<8;c++) if(memcmp(&tap.first[c],&W->pcm[c][fr[bsi]],4)||memcmp(&tap.last[c],&W->pcm[c][fr[bsi]+nf-1],4)){ res_viol(prop,"filter-shown-other-than-delivered","link %d ch %d frames %ld..%ld: filter saw %.9g..%.9g, float decode %.9g..%.9g: %s",bsi,c,fr[bsi],fr[bsi]+nf-1,tap.first[c],tap.last[c],W->pcm[c][fr[bsi]],W->pcm[c][fr[bsi]+nf-1],desc); ok=0; break; }
+        res_count("filtered_reads_tapped",1);
+      }
       fr[bsi]+=nf; res_eval(1);
     }
     for(int i=0;i<whole->nlinks && ok;i++) if(fr[i]!=whole->l[i].nout){ res_viol(prop,"int-read-link-length","link %d: %ld frames through ov_read, %ld through ov_read_float: %s",i,fr[i],whole->l[i].nout,desc); ok=0; }
